@@ -617,6 +617,16 @@ pub fn build(family: &str, tier: Tier) -> Vec<Cfg> {
                 c.max_submits = 3; c.max_conns = 1; c.budget = 0; c.max_depth = 22;
                 out.push(c);
             }
+            // capabilities that differ from one another: each one must be read from its own CONNACK property
+            for (name, template) in [("shared-off-wildcard-on", ConnackTemplate { shared_subscriptions_available: Some(false), wildcard_subscriptions_available: Some(true), subscription_identifiers_available: Some(true), ..Default::default() }),
+                                     ("wildcard-off-shared-on", ConnackTemplate { shared_subscriptions_available: Some(true), wildcard_subscriptions_available: Some(false), subscription_identifiers_available: Some(true), ..Default::default() }),
+                                     ("retain-off-only", ConnackTemplate { retain_available: Some(false), ..Default::default() })] {
+                let mut c = Cfg::base("limits", name);
+                c.connack = template;
+                c.submits = vec![spec("sub-shared", subscribe(&["$share/g/a"])), spec("sub-wild", subscribe(&["a/#"])), spec("sub-shared-wild", subscribe(&["$share/g/a/+"])), spec("retain", retain("t")), spec("pub2", publish("t", 2))];
+                c.max_submits = 2; c.max_conns = 1; c.budget = 0; c.max_depth = 20;
+                out.push(c);
+            }
             for (name, by_conn) in [("restrictive", vec![restrictive.clone()]), ("qos0", vec![qos0.clone()]), ("permissive-then-restrictive", vec![permissive.clone(), restrictive.clone()]), ("restrictive-then-permissive", vec![restrictive.clone(), permissive.clone()])] {
                 for resolver in [ResolverKind::Unset, ResolverKind::Lru(2)] {
                     if !thorough && resolver != ResolverKind::Unset && name != "restrictive" { continue; }
